@@ -31,6 +31,9 @@ def g_str(name, *args):
     return SV(f(*terms))
 
 
+g_str.__pyvc_native__ = True
+
+
 def install(ip, twprge_matches=None, sec_matches=None, finder_flags=((), ()), pp_identity=True, keep_gen_flags=False,
             layout_oracle=None):
     """register the abstraction contracts on this path.
